@@ -17,21 +17,17 @@
   `raise X` = `throw (.doc X)`.  One path of the real code ends in an INTERNAL error; it is mirrored by
   `.attributeError` so that the correspondence is exact on it too (a finding, see Props/C09.lean):
     * `self.start` on a collection without bounds (empty, no located parent)                            F-C19f
-  (F-C09a, `child.is_coding` on a VariantIntervalCollection, is repaired in /repo 88921fc: `isCoding` follows.)
+  Repaired in /repo and followed here: F-C09a (`is_coding` of variant collections, 88921fc), F-C09b (sequence-less
+  parent, 996fc35), F-C09c (end clamp), F-C08a (`VariantInterval.from_dict` passes the parent on, 81459d6).
+  `subsetParentBefore` keeps `_subset_parent` as it was before the repairs of F-C09b / F-C09c (regression witnesses).
+  Still as coded (finding F-C09d): `_subset_parent` clamps against the collection's BOUNDS
+  (`self.chromosome_location`) while it converts positions on the collection's LOCATED range (bounds ∩ chunk), so a
+  collection whose bounds exceed its sequence raises InvalidPositionException for ranges touching the excess.
 
-  Code that is still defective is mirrored AS CODED behind constants; applying the candidate patch
-  (findings/C09.candidate_patches.diff) and flipping the constant keeps model = code and every theorem compiling:
-    `repairedC09b`  (false)  `_subset_parent` on a sequence-less parent: `extract_sequence()` → NullSequence;
-                             repaired: returns the parent unchanged
-    `repairedC09c`  (false)  `_subset_parent` end clamp `chromosome_location.end - 1`; repaired: clamp to `.end`
-                             and convert the last included position for every `end`
-    `variantFromDictDropsParent` (false: F-C08a is repaired in /repo 81459d6; `true` = `VariantInterval.from_dict`
-                             dropping the parent, the code before the repair)
-
-  Modelled domain (the harness generates exactly this; anything else is refused by the driver):
+  Modelled domain (the harness generates exactly this):
     * all members were built on the collection's own parent (`strict_parent_compare` never fails);
-    * whole-chromosome and chunk parents come from `seq_to_parent` / `seq_chunk_to_parent` (plus strand) and the
-      collection then takes its bounds from them (no explicit `start=`/`end=`);
+    * whole-chromosome and chunk parents come from `seq_to_parent` / `seq_chunk_to_parent` (plus strand); the
+      collection takes its bounds from them or carries explicit `start=`/`end=` (any, also missing the chunk);
     * grandchildren are single-block; a child's span is the hull of its grandchildren.
 -/
 import BioCantor.Spec.Query
@@ -77,6 +73,17 @@ def needBounds (src : Source) : QR (Int × Int) :=
   match selfBounds src with
   | some b => pure b
   | none => throw .attributeError
+
+/-- `AnnotationCollection.__init__` → `_initialize_location(start, end, parent)`: `SingleInterval(start, end)` wants
+    `0 ≤ start ≤ end`; on a whole chromosome `reset_parent` wants `end ≤ len(sequence)` -/
+def checkSource (src : Source) : QR Unit :=
+  match src.bounds with
+  | some (bs, be) =>
+      if ¬ (0 ≤ bs ∧ bs ≤ be) then throw (.doc .InvalidPosition)
+      else match src.par with
+        | .whole seq => if be > seq.length then throw (.doc .InvalidPosition) else pure ()
+        | _ => pure ()
+  | none => pure ()
 
 /-! ### span tests (location_impl.py, parent-less kernels over ints) -/
 
@@ -170,33 +177,25 @@ def mkChunk (start stop : Int) (seq : List Char) : QR RPar :=
   else if stop - start ≠ seq.length then throw (.doc .MismatchedParent)
   else pure (.chunk start stop seq)
 
-/-- is F-C09b repaired in /repo?  (`_subset_parent`: `elif not parent.sequence: return self._parent_or_seq_chunk_parent`) -/
-def repairedC09b : Bool := true
-/-- is F-C09c repaired in /repo?  (`_subset_parent`: `end = self.chromosome_location.end`, then
-    `parent_to_relative_pos(end - 1) + 1` for every `end`) -/
-def repairedC09c : Bool := true
-
-/-- `_subset_parent(start, end)`, as coded (`fixB = fixC = false`) and with the candidate repairs of F-C09b / F-C09c -/
-def subsetParentG (fixB fixC : Bool) (src : Source) (start stop : Int) : QR RPar := do
+/-- `_subset_parent(start, end)` as it was BEFORE the repairs of F-C09b (`fixB`) and F-C09c (`fixC`), for collections
+    that take their bounds from the parent — kept for the regression witnesses only -/
+def subsetParentBefore (fixB fixC : Bool) (src : Source) (start stop : Int) : QR RPar := do
   match src.par with
-  | .none => pure .none                                   -- `not self.chunk_relative_location.parent`
+  | .none => pure .none
   | par =>
     if start = stop then pure .none
-    else if fixB = true ∧ par.hasSeq = false then pure par.toRPar   -- repaired F-C09b: nothing to subset
+    else if fixB = true ∧ par.hasSeq = false then pure par.toRPar
     else
       let (bs, be) ← needBounds src
-      if start = bs ∧ stop = be then pure par.toRPar        -- "we are not actually subsetting at all"
+      if start = bs ∧ stop = be then pure par.toRPar
       else
-        -- only collections that take their bounds from the located parent are modelled for W / K
         if par.hasSeq ∧ src.bounds.isSome then throw .unmodelled
         else
-        let chunkRel : Bool := par.isChunk                 -- `self.is_chunk_relative`
-        -- chrom_ancestor = the collection's location on the chromosome = [bs, be)
+        let chunkRel : Bool := par.isChunk
         let start' := if chunkRel = true ∧ start < bs then bs else start
         let crs ← p2r bs be start'
         let (stop', cre) ←
           if fixC = true then (do
-            -- repaired F-C09c: clamp to the chunk end; `end` is exclusive: convert the last included position
             let stop' := if chunkRel = true ∧ stop > be then be else stop
             let r ← p2r bs be (stop' - 1)
             pure (stop', r + 1))
@@ -208,11 +207,55 @@ def subsetParentG (fixB fixC : Bool) (src : Source) (start stop : Int) : QR RPar
         match par with
         | .whole seq => mkChunk start' stop' (slice seq crs cre)
         | .chunk _ seq => mkChunk start' stop' (slice seq crs cre)
-        | _ => throw (.doc .NullSequence)                 -- `extract_sequence()` on a sequence-less parent
+        | _ => throw (.doc .NullSequence)
 
-/-- `_subset_parent` of the code as it is in /repo -/
-def subsetParent (src : Source) (start stop : Int) : QR RPar :=
-  subsetParentG repairedC09b repairedC09c src start stop
+/-- `self.chunk_relative_location` of the collection, lifted to the chromosome, and its `extract_sequence()`:
+    `(A, B, bases of [A,B))`; `none` = EmptyLocation (bounds and sequence chunk do not overlap), which has no parent.
+    `_initialize_location`: `SingleInterval(start, end)` is `reset_parent`ed onto a whole chromosome, or cut to the
+    chunk window by `parent_to_relative_location` (LocationOverlapException → EmptyLocation). -/
+def located (par : Par) (bs be : Int) : Option (Int × Int × List Char) :=
+  match par with
+  | .whole seq => some (bs, be, slice seq bs be)
+  | .chunk cs seq =>
+      let ce := cs + seq.length
+      if overlapInt (cs, ce) (bs, be) then
+        some (max bs cs, min be ce, slice seq (max bs cs - cs) (min be ce - cs))
+      else none
+  | _ => none
+
+/-- `_subset_parent(start, end)` -/
+def subsetParent (src : Source) (start stop : Int) : QR RPar := do
+  match src.par with
+  | .none => pure .none                                   -- `not self.chunk_relative_location.parent`
+  | .noseq =>
+      if start = stop then pure .none                       -- "edge case for a now null interval"
+      else pure .noseq                                      -- a parent without sequence cannot be subset
+  | par =>
+    let (bs, be) ← needBounds src
+    match located par bs be with
+    | none => pure .none                                  -- EmptyLocation().parent is None
+    | some (A, B, ext) =>
+      if start = stop then pure .none
+      else if start = bs ∧ stop = be then pure par.toRPar   -- "we are not actually subsetting at all"
+      else
+        let chunkRel : Bool := par.isChunk                 -- `self.is_chunk_relative`
+        -- the clamps compare with `self.chromosome_location` = the BOUNDS [bs, be) …
+        let start' := if chunkRel = true ∧ start < bs then bs else start
+        -- … while `chrom_ancestor` = the located range [A, B)
+        let crs ← p2r A B start'
+        let stop' := if chunkRel = true ∧ stop > be then be else stop
+        -- `end` is exclusive: the last included position is converted
+        let r ← p2r A B (stop' - 1)
+        mkChunk start' stop' (slice ext crs (r + 1))
+
+/-- `self.chunk_relative_location.parent and self.chunk_relative_location.parent.sequence` -/
+def hasLocSeq (src : Source) : QR Bool :=
+  match src.par with
+  | .whole _ => pure true
+  | .chunk cs seq => do
+      let (bs, be) ← needBounds src
+      pure (located (.chunk cs seq) bs be).isSome
+  | _ => pure false
 
 /-- spliced sequence of a member rebuilt by `from_dict` on the result's parent
     (`liftover_location_to_seq_chunk_parent`, then `extract_sequence`) -/
@@ -227,25 +270,14 @@ def memberSeq (rp : RPar) (g : GChild) : MSeq :=
         .bases (orient g.strand (slice seq (max g.start cs - cs) (min g.stop ce - cs)))
       else .emptyLoc
 
-/-- F-C08a: `VariantInterval.from_dict` used to drop `parent_or_seq_chunk_parent` (variants.py:180-192), and
-    `_initialize_location` of the rebuilt VariantIntervalCollection lifts only its own location on a chunk parent,
-    so a rebuilt variant kept a parent-less location there.  REPAIRED in /repo 81459d6: the constant is `false`
-    (`true` = the code before the repair). -/
-def variantFromDictDropsParent : Bool := false
-
-def liftG (rp : RPar) (k : Kind) (g : GChild) : RGChild :=
-  let m := match k, rp with
-    | .var, .chunk _ _ _ => if variantFromDictDropsParent then MSeq.noSeq else memberSeq rp g
-    | _, _ => memberSeq rp g
-  ⟨g.guid, g.start, g.stop, true, m⟩
-
-/-- members of the SOURCE (built directly on the parent, not through `from_dict`) -/
-def srcG (rp : RPar) (g : GChild) : RGChild := ⟨g.guid, g.start, g.stop, true, memberSeq rp g⟩
+/-- a member rebuilt on the result's parent (every kind: `VariantInterval.from_dict` passes the parent on since the
+    repair of F-C08a), or a member of the source on the source's parent -/
+def liftG (rp : RPar) (g : GChild) : RGChild := ⟨g.guid, g.start, g.stop, g.strand, true, memberSeq rp g⟩
 
 /-- `X.from_dict(x.to_dict(), new_parent)`: the span is recomputed from the grandchildren -/
 def liftChild (rp : RPar) (c : Child) : QR RChild :=
   match hullOf (c.gcs.map fun g => (g.start, g.stop)) with
-  | some (a, b) => pure ⟨c.guid, c.kind, a, b, c.idents, c.gcs.map (liftG rp c.kind)⟩
+  | some (a, b) => pure ⟨c.guid, c.kind, a, b, c.idents, c.gcs.map (liftG rp)⟩
   | none => throw (.doc .InvalidAnnotation)              -- "GeneInterval must have transcripts"
 
 def mapQ {α β} (f : α → QR β) : List α → QR (List β)
@@ -291,6 +323,7 @@ def validate (src : Source) (qs qe : Option Int) : QR (Int × Int) := do
     else pure (start, stop)
 
 def queryByPosition (src : Source) (q : PosQ) : QR Result := do
+  checkSource src
   let (start, stop) ← validate src q.s q.e
   let (bs, be) ← needBounds src
   let kept ← queryKept src start stop q.cw q.codingOnly
@@ -299,7 +332,8 @@ def queryByPosition (src : Source) (q : PosQ) : QR Result := do
       expandBounds start stop (kept.filter (fun c => c.kind = .feat) ++ kept.filter (fun c => c.kind = .gene))
     else (start, stop)
   -- `if self.chunk_relative_location.parent and self.chunk_relative_location.parent.sequence:`
-  if src.par.hasSeq ∧ (start < bs ∨ stop > be) then throw (.doc .InvalidQuery)
+  let locSeq ← hasLocSeq src
+  if locSeq = true ∧ (start < bs ∨ stop > be) then throw (.doc .InvalidQuery)
   else buildNew src kept start stop
 
 /-! ### id / GUID queries -/
@@ -312,6 +346,7 @@ def idQueryBounds (bs be : Int) (kept : List Child) : Int × Int :=
 
 /-- `_return_collection_for_id_queries` -/
 def returnForIdQueries (src : Source) (kept : List Child) : QR Result := do
+  checkSource src
   let (bs, be) ← needBounds src
   let (start, stop) := idQueryBounds bs be kept
   buildNew src kept start stop
@@ -396,8 +431,30 @@ def queryByIdentifiers (src : Source) (ids : List (List Char)) : QR Result :=
 /-- rendering of `child.query_by_guids(ids)` on the source's own parent: the grandchildren are the SAME objects
     (not rebuilt), so their sequences are those of the source -/
 def childQueryResult (src : Source) (c : Child) (ids : List Nat) : QR (Option RChild) := do
+  checkSource src
   match (← childQueryByGuids src.par c ids) with
   | none => pure none
-  | some c' => pure (some ⟨c'.guid, c'.kind, c'.start, c'.stop, c'.idents, c'.gcs.map (srcG src.par.toRPar)⟩)
+  | some c' => pure (some ⟨c'.guid, c'.kind, c'.start, c'.stop, c'.idents, c'.gcs.map (liftG src.par.toRPar)⟩)
+
+/-! ### the cgranges branch (`HAS_CGRANGES`): `_optimized_query_by_position` 676-710
+
+  Not executable in this sandbox (cgranges is absent); modelled for the proof that the answer does not depend on the
+  branch.  TRUSTED here: the documented semantics of the interval tree — `tree.overlap("", start, end)` over the
+  entries `tree.add("", child.genomic_start, child.genomic_end, i)` yields exactly the indices whose half-open
+  interval `[genomic_start, genomic_end)` satisfies `genomic_start < end ∧ start < genomic_end` (cgranges
+  `cr_overlap`), each once, in an unspecified order. -/
+
+/-- `tree.overlap("", start, end)` resolved to the children (order: that of `self.children`) -/
+def treeOverlap (src : Source) (s e : Int) : List Child :=
+  (iterChildren src).filter (fun c => decide (c.start < e ∧ s < c.stop))
+
+/-- the post-filters of the loop: `contains` when `completely_within`, then `coding_only` -/
+def optimizedKeep (codingOnly cw : Bool) (s e : Int) (c : Child) : QR Bool := do
+  if cw = true ∧ containsInt (s, e) (c.start, c.stop) = false then pure false
+  else if codingOnly then (do let ic ← isCoding c; pure ic)
+  else pure true
+
+def optimizedKept (src : Source) (s e : Int) (cw codingOnly : Bool) : QR (List Child) :=
+  filterQ (optimizedKeep codingOnly cw s e) (treeOverlap src s e)
 
 end BioCantor.Model.Query
